@@ -375,13 +375,24 @@ fn main() {
                 o.target_ms = Some(target_us / 1000);
                 Timing { start_us: None, trigger: None, carousel: Some(car), target_us: Some(target_us / 1000 * 1000), deadline_us: None }
             };
-            let script = vec![(When::Start, Op::Add(0)), (When::Start, Op::Publish)];
+            let mut script = vec![(When::Start, Op::Add(0)), (When::Start, Op::Publish)];
+            // one case in three: the object is removed at some packet index (first transfer with or without the
+            // allow-immediate-stop option, or a later one); the packet that closes it is paced like any other
+            let removal = rng.chance(1, 3);
+            if removal {
+                o.immediate_stop = *rng.pick(&[None, Some(true), Some(false)]);
+                let at = rng.range(1, 3 * nsym as u64 + 2) as usize;
+                script.push((When::Packets(at), Op::Remove(0)));
+                if rng.chance(1, 2) {
+                    script.push((When::Packets(at), Op::Publish));
+                }
+            }
             let mut opts = ScriptOpts { instants: inst, drain: rng.chance(1, 2), max_packets: 3000, max_per_instant: 20_000, stop_when_empty: false, us: true };
             if !opts.drain {
                 opts.max_per_instant = 1;
             }
             let mut cr = CaseResult::default();
-            run_timing(&spec, &[o], &[tmg], &script, &opts, false, &[], &format!("pc|{}|{}|{}|{:?}", kind, target_us, nsym, car), &mut cr);
+            run_timing(&spec, &[o], &[tmg], &script, &opts, false, &[], &format!("pc|{}|{}|{}|{:?}|{}", kind, target_us, nsym, car, removal), &mut cr);
             cr
         }));
         // ---- degenerate inputs next to a plain object that must still be transmitted
